@@ -2434,6 +2434,10 @@ impl VmGreenThread {
             Instr::StringNthByte(dest, reg1, reg2) => {
                 let n = self.load_offset_or_top(reg2).get_int(self);
                 let s = self.load_offset_or_top(reg1).view_string(self);
+                if n < 0 || n as usize >= s.len() {
+                    self.error = Some(self.make_error(VmErrorKind::ArrayOutOfBounds).into());
+                    return false;
+                }
                 self.store_offset_or_top(dest, s.as_bytes()[n as usize] as AbraInt);
             }
             Instr::StringCountBytes(dest, reg) => {
